@@ -109,11 +109,28 @@ fn c43_query() {
 }
 
 /// Expected to FAIL (known-finding candidate): `KalmanController::clock_frequency` calls
-/// `filter.clock_offset`.
+/// `filter.clock_offset`. Minimal variant of `query` (only the frequency query, estimates that
+/// differ in value or variance) so that the counterexample run with concrete playback stays small.
 #[kani::proof]
 #[kani::unwind(6)]
 fn c43_query_kf_frequency_is_offset() {
-    query(true);
+    let off: f64 = kani::any();
+    let frq: f64 = kani::any();
+    let same_var: bool = kani::any();
+    // readable counterexamples: ordinary finite numbers
+    kani::assume(off.is_finite() && frq.is_finite());
+    kani::assume(off != frq || !same_var);
+    let (ctl, sys) = Ctl::new(RecClock(0), 1e-8, filter_config()).unwrap();
+    ch::with_filter(&ctl, |f| {
+        let e = fh::filter_estimator_mut(f);
+        eh::est_state_set(e, 0, off);
+        eh::est_state_set(e, 1, frq);
+        eh::est_cov_set(e, 0, 0, 4.0);
+        eh::est_cov_set(e, 1, 1, if same_var { 4.0 } else { 9.0 });
+    });
+    let qf = ctl.clock_frequency(sys);
+    assert!(matches!(qf, Ok(v) if v.value == frq), "frequency query reports the frequency estimate");
+    assert!(matches!(qf, Ok(v) if v.uncertainty == if same_var { 2.0 } else { 3.0 }), "frequency query reports the frequency standard deviation");
 }
 
 // ------------------------------------------------------------------ steering
